@@ -611,6 +611,38 @@ def check_c14(seed, tier):
                 viol.append({"case": {"cfg": cfg, "variant": variant}, "what": f"{type(e).__name__}: {e}"[:300], "key": common.failure_site(e)})
             finally:
                 clean()
+        # "each entry appears under its section's group": an entry whose line is NOT in the text does not — the same product
+        # (same ids) with a random subset of its plain one-key-one-attribute lines removed, opened after the full one
+        plain = ("Odi_", "Pds_", "Img_", "Lbi_", "Ach_", "Rad_")
+        for trial in range(2):
+            ls = list(prod.summary_text.split("\n")[:-1])
+            removable = [i for i, l_ in enumerate(ls) if l_.startswith(plain) and not l_.startswith(("Pds_ProductID", "Scs_"))]
+            gone = sorted(rng.sample(removable, rng.randint(1, max(1, len(removable) // 2)))) if removable else []
+            gone_keys = {ls[i].split("=", 1)[0] for i in gone}
+            kept = [l_ for i, l_ in enumerate(ls) if i not in gone]
+            prod.files["summary.txt"] = ("\n".join(kept) + "\n").encode()
+            path, clean = products.place(prod, "memory")
+            evals += 1
+            distinct.add((cfg["seed"], "subset", tuple(gone)))
+            try:
+                got = treecmp.fingerprint_tree(_open(path))
+                ref_s = {n["path"]: {json.dumps(a[0]): a for a in n["attrs"]} for n in ref if n["path"].startswith("/summary")}
+                got_s = {n["path"]: {json.dumps(a[0]): a for a in n["attrs"]} for n in got if n["path"].startswith("/summary")}
+                gone_names = {k_.split("_", 1)[1] for k_ in gone_keys}
+                for node, attrs in got_s.items():
+                    want = {k_: v_ for k_, v_ in ref_s.get(node, {}).items() if json.loads(k_) not in gone_names}
+                    # (an attribute name removed from one section may legitimately exist in another: compare only the nodes
+                    #  whose full version held a removed name)
+                    if set(ref_s.get(node, {})) - set(want) and attrs != want:
+                        stale = sorted(set(attrs) - set(want))
+                        viol.append({"case": {"cfg": cfg, "removed_lines": sorted(gone_keys)},
+                                     "what": f"{node}: after removing {len(gone)} lines the group holds {stale[:5]} (not in the text) or lost/changed other entries"[:400]})
+                        break
+            except Exception as e:  # noqa: BLE001
+                viol.append({"case": {"cfg": cfg, "removed_lines": sorted(gone_keys)}, "what": f"well-formed summary rejected: {type(e).__name__}: {e}"[:300],
+                             "key": common.failure_site(e)})
+            finally:
+                clean()
         # values may contain spaces, '=' and quotes (in any combination, e.g. `a="b"`): the entry is stored under its key, verbatim
         extra = {}
         for j in range(5):
